@@ -1,6 +1,9 @@
 """C09 — JSON serialization is lossless or loud, and policy-gated."""
 from __future__ import annotations
 
+import decimal
+import fractions
+
 import collections
 import copy
 import enum
@@ -53,9 +56,32 @@ class DictObj:
   __hash__ = None
 
 
+class LoggedObj:
+  """A dict-based object whose class customises attribute assignment (an edit log, a coercing
+  setter): restoring it must restore its __dict__, not replay assignments."""
+
+  def __init__(self, a=None, b=None):
+    self.__dict__['log'] = []
+    self.a, self.b = a, b
+
+  def __setattr__(self, name, value):
+    self.__dict__.setdefault('log', []).append(name)
+    self.__dict__[name] = int(value) if name == 'b' and isinstance(value, float) else value
+
+  def __eq__(self, other):
+    return isinstance(other, LoggedObj) and self.__dict__ == other.__dict__
+
+  __hash__ = None
+
+
 CONST = ('a registered constant',)
+HALF = fractions.Fraction(1, 2)          # registered BY VALUE
+UNIT = decimal.Decimal(1)                # registered BY VALUE
 try:
   serialization.register_dict_based_object(DictObj)
+  serialization.register_dict_based_object(LoggedObj)
+  serialization.register_constant('harness.props.C09', 'HALF', compare_by_identity=False)
+  serialization.register_constant('harness.props.C09', 'UNIT', compare_by_identity=False)
   serialization.register_constant('harness.props.C09', 'CONST', compare_by_identity=True)
   serialization.register_enum(Shade)
   serialization.register_enum(Level)
@@ -99,7 +125,8 @@ def leaf(r):
     return r.choice([1.5, -0.0, 1e300, float('inf'), float('-inf'), float('nan')])
   if x < 0.36:
     return r.choice(['', 'plain', 'nul\x00byte', 'uni é中\U0001F600', 'lone \ud800 surrogate',
-                     'quote " \' \\', '\\u0041', 'line\nbreak'])
+                     'quote " \' \\', '\\u0041', 'line\nbreak', 'low then high \ude00\ud83d',
+                     'two surrogates \ud83d\ude00 in a row'])
   if x < 0.5:
     n = r.randint(0, 6)
     base = bytes(r.randrange(256) for _ in range(n))
@@ -112,8 +139,12 @@ def leaf(r):
     return slice(r.choice([None, 1]), r.choice([None, 5]), r.choice([None, 2]))
   if x < 0.72:
     return fdl.NO_VALUE
-  if x < 0.76:
+  if x < 0.74:
     return CONST
+  if x < 0.76:
+    # by-value constants, and values that merely EQUAL one (0.5 == HALF, 1 == 1.0 == True == UNIT)
+    return r.choice([HALF, UNIT, 0.5, 1, 1.0, True, fractions.Fraction(1, 2), decimal.Decimal('0.5'),
+                     fractions.Fraction(1, 1)])
   if x < 0.82:
     return r.choice([(1, 's'), (), ((1, 2), (1, 2))])
   if x < 0.86:
@@ -145,8 +176,10 @@ class Gen:
       v = r.choice([set, frozenset])(r.choice([[1, 2, 3], ['x', 'y'], [], [(1, 2), 3]]))
     elif x < 0.6:
       v = graphs.NT(self.value(depth - 1), self.value(depth - 1))
-    elif x < 0.65:
+    elif x < 0.63:
       v = DictObj(self.value(depth - 1), self.value(depth - 1))
+    elif x < 0.65:
+      v = LoggedObj(self.value(depth - 1), r.choice([2.5, 3, 'b']))
     elif x < 0.7:
       v = collections.defaultdict(list, {'d': self.value(depth - 1)})
     else:
@@ -199,6 +232,13 @@ class RecordingPolicy(serialization.DefaultPyrefPolicy):
   def allows_value(self, value):
     self.value_calls.append(value)
     return super().allows_value(value)
+
+
+class SizedPolicy(RecordingPolicy):
+  """A policy object with a length (its deny list): an empty one is falsy."""
+
+  def __len__(self):
+    return len(self.deny)
 
 
 def cases(tier, r):
@@ -395,7 +435,7 @@ def execute(case):
                                           and not m.startswith('fiddle')})
     obs['invocations'] = len(targets.LOG)
     return obs, None
-  policy = RecordingPolicy()
+  policy = (SizedPolicy if case['seed'] % 3 == 0 else RecordingPolicy)()
   try:
     back = serialization.load_json(doc, pyref_policy=policy)
   except Exception as e:
@@ -447,7 +487,7 @@ def execute(case):
     from fiddle._src.absl_flags import utils as flag_utils
     zs = flag_utils.ZlibJSONSerializer()
     text = zs.serialize(v)
-    p2 = RecordingPolicy()
+    p2 = (SizedPolicy if case['seed'] % 3 == 1 else RecordingPolicy)()
     back2 = zs.deserialize(text, pyref_policy=p2)
     ok = syms <= set(p2.import_calls) and scanon(back2) == before
     if syms:
@@ -566,8 +606,13 @@ def oracle(case, real):
   if real['load'] != 'ok':
     return {'what': 'load_json failed on the output of dump_json', 'observed': real['load']}
   if not real['roundtrip']:
-    return {'what': 'the reconstructed value differs (types, leaves, callables, tags or sharing)',
-            'before': real.get('before'), 'after': real.get('after')}
+    f = {'what': 'the reconstructed value differs (types, leaves, callables, tags or sharing)',
+         'before': real.get('before'), 'after': real.get('after')}
+    if merge_surrogate_pairs(real.get('before')) == real.get('after'):
+      # recorded finding: the only difference is a high+low surrogate pair that came back as the one
+      # character it encodes in UTF-16
+      f['class'] = 'str-surrogate-pair-merged'
+    return f
   if real['stable'] is not True:
     return {'what': 'serializing the reconstruction gives a different document', 'observed': real['stable']}
   if real['invocations']:
@@ -583,6 +628,26 @@ def oracle(case, real):
   if not real['input_unchanged']:
     return {'what': 'dump_json / load_json modified the input'}
   return deferred
+
+
+def merge_surrogate_pairs(x):
+  """The canonical form `x` with every str token rewritten the way a UTF-16 round trip rewrites
+  it (an adjacent high+low surrogate pair becomes one character; lone surrogates stay)."""
+  import ast
+  if isinstance(x, str):
+    i = x.find("str:")
+    if i == 0:
+      try:
+        t = ast.literal_eval(x[4:])
+        return 'str:' + repr(t.encode('utf-16', 'surrogatepass').decode('utf-16', 'surrogatepass'))
+      except Exception:
+        return x
+    return x
+  if isinstance(x, (list, tuple)):
+    return [merge_surrogate_pairs(y) for y in x]
+  if isinstance(x, dict):
+    return {k: merge_surrogate_pairs(v) for k, v in x.items()}
+  return x
 
 
 def classify(case, fail):
